@@ -52,6 +52,7 @@ type Seam struct {
 	Default  int        // the answer served when no explorer is attached (AnsA unless set)
 	Before   func()     // called at the start of every Read (scheduling point of the cooperative scheduler)
 	ConstOf  func() int // >= 0: this read is served with that constant octet (a source that is stuck for one caller)
+	Script   [][]byte   // Script[i] != nil: read number i is served with exactly these octets (a chosen draw); later reads follow the usual rules
 	pos      map[uint64]uint64
 }
 
@@ -103,6 +104,13 @@ func (s *Seam) Read(p []byte) (int, error) {
 	rec := ReadRec{Call: call, Requested: len(p), Answer: ans}
 	var n int
 	var err error
+	if call < len(s.Script) && s.Script[call] != nil {
+		n = copy(p, s.Script[call])
+		rec.Served = n
+		rec.Data = append([]byte(nil), p[:n]...)
+		s.Log = append(s.Log, rec)
+		return n, nil
+	}
 	switch ans {
 	case AnsA:
 		copy(p, StreamBytes(st, s.pos[st], len(p)))
